@@ -10,6 +10,8 @@ use std::sync::{
     Arc, RwLock,
 };
 
+pub use crate::parser::verif_skip;
+
 /// operation about to be performed on the cell at address `cell`
 #[derive(Debug, Clone, Copy, PartialEq, Eq)]
 pub enum Op {
